@@ -476,13 +476,75 @@ func GenHistory(rng *rand.Rand, drv Driver, profile string) []Op {
 			cum += s
 			ops = append(ops, Op{Kind: opAppend, Size: s, Epoch: g.next(rng)})
 		}
+		if rng.Intn(4) != 0 {
+			// directed block for the purge clause across a SIZE-FORCED rotation: fill one file
+			// past the rotation threshold with entries of epoch <= lo, then append an entry of a
+			// higher epoch hi (it is the one that triggers the rotation inside Append and is the
+			// first entry of the new file), follow it with 0-2 entries of lower epochs, close the
+			// new file in the same instance and purge at an epoch in (lo', hi]: the old file must
+			// go (all its entries are below), the new one must stay (it holds hi).
+			if rng.Intn(2) == 0 {
+				ops = append(ops, Op{Kind: opRotate})
+			}
+			g.base += 1 + uint64(rng.Intn(3))
+			lo := g.base
+			g.base += 2 + uint64(rng.Intn(3))
+			hi := g.base
+			fill := 0
+			for fill <= 1<<20 {
+				s := drv.MaxSize/2 + rng.Intn(drv.MaxSize/2+1)
+				fill += s
+				e := lo
+				if rng.Intn(3) == 0 && e > 0 {
+					e--
+				}
+				g.seen = append(g.seen, e)
+				ops = append(ops, Op{Kind: opAppend, Size: s, Epoch: e})
+			}
+			g.seen = append(g.seen, hi)
+			g.max = max(g.max, hi)
+			ops = append(ops, Op{Kind: opAppend, Size: fineSizeN(rng, 400), Epoch: hi})
+			lo2 := lo
+			for k := rng.Intn(3); k > 0; k-- {
+				lo2 = lo + uint64(rng.Intn(int(hi-lo)))
+				g.seen = append(g.seen, lo2)
+				ops = append(ops, Op{Kind: opAppend, Size: fineSizeN(rng, 400), Epoch: lo2})
+			}
+			ops = append(ops, Op{Kind: []string{opRotate, opCloseContinue, opRotate, opCloseReopen}[rng.Intn(4)]})
+			ops = append(ops, Op{Kind: opPurge, Epoch: lo + 1 + uint64(rng.Intn(int(hi-lo)))}, Op{Kind: opRead})
+			if rng.Intn(2) == 0 {
+				ops = append(ops, Op{Kind: opPurge, Epoch: hi}, Op{Kind: opRead})
+			}
+		}
 	default:
 		n := 12 + rng.Intn(50)
 		probeAt := -1
 		if rng.Intn(100) < 40 {
 			probeAt = rng.Intn(n)
 		}
+		zeroAt := -1
+		if rng.Intn(100) < 35 {
+			zeroAt = rng.Intn(n)
+		}
 		for i := 0; i < n; i++ {
+			if i == zeroAt {
+				// directed block: a log file whose entries ALL carry epoch 0 (a legal epoch: the
+				// first instance of a network), closed by the same instance or by a restart; it
+				// must stay readable, survive Purge(0) and go with Purge(1).
+				ops = append(ops, Op{Kind: []string{opRotate, opCloseContinue, opCloseReopen}[rng.Intn(3)]})
+				for k := 1 + rng.Intn(3); k > 0; k-- {
+					g.seen = append(g.seen, 0)
+					ops = append(ops, Op{Kind: opAppend, Size: fineSizeN(rng, 400), Epoch: 0})
+				}
+				ops = append(ops, Op{Kind: []string{opRotate, opCloseContinue, opRotate, opCloseReopen}[rng.Intn(4)]}, Op{Kind: opRead})
+				if rng.Intn(2) == 0 {
+					ops = append(ops, Op{Kind: opAppend, Size: fineSizeN(rng, 400), Epoch: g.next(rng)})
+				}
+				ops = append(ops, Op{Kind: opPurge, Epoch: 0}, Op{Kind: opRead})
+				if rng.Intn(2) == 0 {
+					ops = append(ops, Op{Kind: opPurge, Epoch: 1}, Op{Kind: opRead})
+				}
+			}
 			if i == probeAt {
 				// directed block for the purge clause: one file whose LAST entry has a
 				// lower epoch than an earlier one, closed by the same instance or by a
